@@ -13,8 +13,9 @@ PROPERTY = "C01"
 LEVEL = "exploration"
 CHUNK = 16
 RULE = ("for each layout (s sensitive, c control features) every assignment sequence of n rows to feature values "
-        "(binary; ternary when s+c=1), n up to the layout bound; 4 metric programs (bare callable with per-sample "
-        "parameter, bare callable without, dict of four metrics with sample_params for one, functools.partial); the "
+        "(binary; ternary when s+c=1), n up to the layout bound; 5 metric programs (bare callable with per-sample "
+        "parameter, bare callable without, dict of four metrics with sample_params for one, functools.partial, dict "
+        "with the same function / a same-named function under several keys each with its own parameter array); the "
         "metric is a spy returning an injective encoding of the row ids it was handed (and -1 if y_pred / the sample "
         "parameter were not sliced identically); reference = dict(feature tuple -> row ids) built by loops; "
         "non-trivial = at least two groups or an empty intersection; distinct = distinct (layout, assignment)")
@@ -62,6 +63,19 @@ def describe(case):
             "y_true": list(range(len(case["a"]))), "programs": 4}
 
 
+def _wsum(y_true, y_pred, w):
+    return float(np.sum(w))
+
+
+def _mk_wsum2():
+    def _wsum(y_true, y_pred, w):  # a DIFFERENT function object with the same __name__
+        return float(np.sum(w))
+    return _wsum
+
+
+_wsum2 = _mk_wsum2()
+
+
 def _cellval(obj, key):
     return obj[key if len(key) > 1 else key[0]]
 
@@ -107,6 +121,30 @@ def run_case(case):
     snip = ("from fairlearn.metrics import MetricFrame; from mc.ref.metrics import spy_w, spy; import numpy as np; "
             "ids=np.arange(%d); mf=MetricFrame(metrics=spy_w, y_true=ids, y_pred=10*ids+1, sample_params={'w':100*ids+7}, "
             "sensitive_features=%r%s); print(mf.by_group, mf.overall)" % (n, sf, (", control_features=%r" % cf) if c else ""))
+    # (e) the same function under two dict keys, each with its OWN per-sample parameter array
+    out["evals"] += 1
+    try:
+        w1, w2 = 2.0 ** ids, 2.0 ** (ids + n)
+        mfe = MetricFrame(metrics={"a": _wsum, "b": _wsum, "c": _wsum2}, y_true=ids, y_pred=10 * ids + 1, sensitive_features=sf,
+                          **({"control_features": cf} if c else {}), sample_params={"a": {"w": w1}, "b": {"w": w2}, "c": {"w": w1 + w2}})
+        for key, shift in (("a", 0), ("b", n)):
+            col = mfe.by_group[key]
+            for t in col.index:
+                r = rows.get(as_tuple(t))
+                e = float(sum(2.0 ** (i + shift) for i in r)) if r else float("nan")
+                v = float(col[t])
+                if not ((math.isnan(v) and math.isnan(e)) or v == e):
+                    V.append(viol("C01:same-function-twice:sample-param-mixup", "metric %r (same function as the other key, own parameter array): cell %r = %r, "
+                                  "expected %r for %s" % (key, t, v, e, describe(case)), e, v, snip))
+        ce = mfe.by_group["c"]
+        for t in ce.index:
+            r = rows.get(as_tuple(t))
+            e = float(sum(2.0 ** i + 2.0 ** (i + n) for i in r)) if r else float("nan")
+            v = float(ce[t])
+            if not ((math.isnan(v) and math.isnan(e)) or v == e):
+                V.append(viol("C01:same-name-function:sample-param-mixup", "cell %r = %r expected %r" % (t, v, e), e, v, snip))
+    except Exception as ex:
+        V.append(viol("C01:same-function-twice:raises-%s" % type(ex).__name__, "MetricFrame raised %r for %s" % (ex, describe(case)), None, repr(ex), snip))
     outcome = []
     for pname, metrics, sp, col in programs:
         kw = dict(metrics=metrics, y_true=ids, y_pred=10 * ids + 1)
